@@ -411,6 +411,11 @@ func (r *Run) symSlice(x *absSlice, lo, hi value) value {
 // fillModel attaches a model of the current path condition to a violation.
 func (r *Run) fillModel(v *Violation) {
 	v.Choose = append([]int{}, r.Chooses...)
+	v.ChooseK = map[string]int{}
+	for k, x := range r.ChooseK {
+		v.ChooseK[k] = x
+	}
+	v.Yields = append([]string{}, r.YieldLog...)
 	v.Events = append([]string{}, r.S.Events...)
 	v.Trace = append([]ChoicePoint{}, r.S.Trace...)
 	if len(r.Decls) == 0 || v.Model != nil {
